@@ -41,6 +41,19 @@ type Reply struct {
 	// Stream > 0: instead of Body, a stream of that many zero octets is sent
 	// without a content-length (a chunked / decompressed response).
 	Stream int64
+	// Stall: the body reader delivers nothing and blocks until the request's
+	// context ends (headers sent, then silence).
+	Stall bool
+}
+
+type stalledBody struct{ done <-chan struct{} }
+
+func (b stalledBody) Read([]byte) (int, error) {
+	if b.done == nil {
+		<-make(chan struct{}) // (a channel of the bubble: the wait is durable)
+	}
+	<-b.done
+	return 0, errors.New("simdoh: request context ended while the body was stalled")
 }
 
 type zeroStream struct{}
@@ -299,6 +312,11 @@ func (s *Server) RoundTrip(req *http.Request) (*http.Response, error) {
 	}
 	if rep.ReadErrAfter > 0 {
 		rd = &failingReader{r: rd, left: rep.ReadErrAfter}
+	}
+	if rep.Stall {
+		rd = stalledBody{req.Context().Done()}
+		h.Del("Content-Length")
+		cl = -1
 	}
 	return &http.Response{
 		Status: strconv.Itoa(rep.Status) + " " + http.StatusText(rep.Status), StatusCode: rep.Status,
